@@ -444,6 +444,63 @@ def run(ctx):
 
     _session_state_rules(ctx, mpq)
     _rename_key_rule(ctx, mpq)
+    version_gate_rule(ctx, mpq, "C06", r"::modification::")
+
+
+def version_gate_rule(ctx, mpq, pid, scope):
+    """(C06, also armed for the builder in C01) which archives carry HET/BET tables is a rule of the format (version >= 3) that the reader
+    applies in load_tables; every writer-side gate that chooses the HET/BET code path admits exactly the versions the reader's gate admits"""
+    R = ctx.rule("%s.het-bet-path-gate-equals-the-readers" % pid, "each pure `version >= / == / > Vk` test in %s that guards HET/BET code (or a *_v3_plus / *_het_bet call) admits the same subset of {V1..V4} as the gate of Archive::load_tables" % scope, floor=1)
+    ORD = {"V1": 1, "V2": 2, "V3": 3, "V4": 4}
+
+    def gate(c):
+        c = hirq.strip(c)
+        if c.get("k") != "bin" or c["op"] not in ("<", "<=", ">", ">=", "==", "!="):
+            return None
+        l, r = hirq.strip(c["l"]), hirq.strip(c["r"])
+        op = c["op"]
+        vk = lambda e: (re.search(r"FormatVersion::(V[1-4])$", (e.get("res") or {}).get("def") or "") or [None, None])[1] if e.get("k") == "path" else None
+        if vk(l) and not vk(r):
+            l, r = r, l
+            op = {"<": ">", "<=": ">=", ">": "<", ">=": "<=", "==": "==", "!=": "!="}[op]
+        if not vk(r) or not re.search(r"version$", hirq.render(l)):
+            return None
+        k = ORD[vk(r)]
+        return frozenset(v for v in (1, 2, 3, 4) if {"<": v < k, "<=": v <= k, ">": v > k, ">=": v >= k, "==": v == k, "!=": v != k}[op])
+    ref = None
+    lt = mpq.fns.get("wow_mpq::archive::Archive::load_tables")
+    if lt is not None and lt.hir:
+        for n in hirq.find(lt.hir["body"], "if"):
+            g = gate(n["c"])
+            if g is not None and re.search(r"het|bet", hirq.render(n["then"]), re.I) and len(g) > 1:   # (`== V3` sub-cases inside are not the gate)
+                ref = g
+                break
+    if ref is None:
+        ctx.bad(R, "load_tables|gate", "-", "the reader's HET/BET version gate was not recognised", "anchor gone")
+        return
+    for f in mpq.fn_list:
+        if not f.hir or f.kind == "Closure" or "::tests::" in f.path or not re.search(scope, f.path):
+            continue
+        for n in hirq.find(f.hir["body"], "if"):
+            g = gate(n["c"])
+            if g is None:
+                # the test may be held in a local first (`let use_het_bet = self.version >= V3;`)
+                c0 = hirq.strip(n["c"])
+                if c0.get("k") == "path" and "local" in (c0.get("res") or {}):
+                    gs = [gate(v) for v in hirq.value_leaves(f.hir["body"], c0) if v is not None]
+                    g = gs[0] if len(gs) == 1 else None
+            if g is None:
+                continue
+            # only gates that choose the HET/BET *code path*: the guarded arm calls into it
+            if not any(c_.get("k") in ("call", "mcall") and re.search(r"v3_plus$|_het_bet$|write_het_table$|write_bet_table$|create_het_table\w*$|create_bet_table\w*$", (c_.get("fn") or c_.get("m") or "")) for c_ in hirq.walk(n["then"])):
+                continue
+            ctx.saw_fn(f)
+            inst = {"fn": f.path.split("::")[-1], "gate": hirq.render(n["c"])[:50], "admits": sorted(g)}
+            if g == ref:
+                ctx.ok(R, inst)
+            else:
+                ctx.bad(R, "%s|gate" % f.path.split("::")[-1], "%s:%d" % (f.file, n.get("ln") or 0), "`%s` admits versions %s; the reader loads HET/BET for versions %s" % (hirq.render(n["c"])[:50], sorted(g), sorted(ref)),
+                        "archives of the versions in the difference are written through the other table path: their HET/BET tables (which the reader prefers) go stale — a removed file is readable again after reopen, a renamed one under both names")
 
 
 def _self_field(e):
